@@ -36,6 +36,17 @@ Theorem C12_at_most_once_from : forall k L st sched c,
 Proof. intros k L st sched c Hk -> Hi. apply (at_most_once_from (2 ^ k)); [exists k; auto|exact Hi]. Qed.
 Print Assumptions C12_at_most_once_from.
 
+(* In particular after the window has processed any in-range history - the seeding loop of
+   newConnectionStateFromResult (Update 1 .. MessageIndex) or any earlier traffic. *)
+Theorem C12_seeded : forall k L b0 ops ths sched c,
+  k <= 63 -> L = 2 ^ k -> new_bits L = Some b0 -> ops_in_range L ops = true -> threads_ok L ths = true ->
+  (delivered_count c (snd (run_sched (snd (run_ops b0 ops), ths) sched)) <= 1)%nat.
+Proof.
+  intros k L b0 ops ths sched c Hk -> Hn Hr Hok.
+  apply (at_most_once_from (2 ^ k)); [exists k; auto|]. apply inv_seeded; [exists k; auto|assumption..].
+Qed.
+Print Assumptions C12_seeded.
+
 (* Only packets that passed the cipher's authentication are delivered. *)
 Theorem C12_delivered_authentic : forall L b0 ths sched t,
   threads_ok L ths = true -> In t (snd (run_sched (b0, ths) sched)) -> delivered t = true -> t_auth t = true.
